@@ -172,6 +172,13 @@ def make_matrix(spec):
         A = A * mask + numpy.eye(n) * 3
     if spec.get('cplx'):
         A = A + 1j * (r.randn(n, n) * .3 if not spec['sym'] else numpy.zeros((n, n)))
+    # structurally empty columns / rows (dofs without influence, equations without content): what solve_constraints is for
+    for j in spec.get('zero_cols', ()):
+        A[:, j % n] = 0
+    for i in spec.get('zero_rows', ()):
+        A[i % n, :] = 0
+    for i, j, v in spec.get('small', ()):
+        A[i % n, j % n] = v
     return A
 
 
@@ -213,7 +220,7 @@ def gen_solve_op(rng, n):
         op['rmask'] = m
     op['lhs0'] = rng.random() < 0.4
     op['nrhs'] = rng.choice([0, 0, 0, 1, 2, 3])
-    op['rhs'] = rng.choice(['rand', 'rand', 'rand', 'zero', 'none', 'tiny'])
+    op['rhs'] = rng.choice(['rand', 'rand', 'rand', 'zero', 'none', 'tiny', 'zerocol'])
     op['vseed'] = rng.randrange(1 << 30)
     tol = rng.choice(['none', 'none', 'atol', 'rtol', 'both'])
     op['atol'] = rng.choice([1e-12, 1e-8, 1e-3]) if tol in ('atol', 'both') else 0.
@@ -230,7 +237,14 @@ def gen_solve_op(rng, n):
 def gen_system_spec(rng):
     n = rng.choice([1, 2, 3, 4, 6])
     kind = rng.choice(['linear', 'linear', 'linparam', 'cubic', 'cubic', 'mixed3', 'sqrt', 'time', 'time'])
-    return dict(n=n, kind=kind, mat=gen_matrix_spec(rng, n), sseed=rng.randrange(1 << 30), functional=rng.random() < 0.5, coef=rng.choice([0.1, 1., 10.]))
+    spec = dict(n=n, kind=kind, mat=gen_matrix_spec(rng, n), sseed=rng.randrange(1 << 30), functional=rng.random() < 0.5, coef=rng.choice([0.1, 1., 10.]))
+    if kind == 'linear' and rng.random() < 0.45 and n > 1:
+        # rank-deficient by structure: columns (and, independently, rows) without entries; entries around the drop tolerance
+        spec['mat'].update(cond='well', zero_cols=[rng.randrange(n) for _ in range(rng.choice([1, 1, 2]))],
+                           zero_rows=[rng.randrange(n) for _ in range(rng.choice([0, 1, 1, 2]))],
+                           small=[[rng.randrange(n), rng.randrange(n), rng.choice([1e-9, 1e-4, 0.5])] for _ in range(rng.choice([0, 1, 2]))])
+        spec['structural'] = True
+    return spec
 
 
 def gen_system_op(rng, spec):
@@ -241,8 +255,8 @@ def gen_system_op(rng, spec):
         return dict(op='step', tol=rng.choice([1e-10, 1e-8, 1e-6]), timestep=rng.choice([0.5, 0.1, 1.0, 4.]), maxretry=rng.choice([0, 1, 2]),
                     method=rng.choice([None, None, 'newton', 'linesearch']), cons=rng.choice(['none', 'bool', 'float']), cmask=[rng.random() < 0.3 for _ in range(n)],
                     maxiter=rng.choice([5, 10, 30]), use_t=rng.random() < 0.7, use_dt=rng.random() < 0.8, vseed=rng.randrange(1 << 30))
-    if linear and r < 0.2:
-        return dict(op='constraints', droptol=rng.choice([1e-12, 1e-6, 1e-2, 1.0]), cons=rng.choice(['none', 'bool', 'float']), cmask=[rng.random() < 0.3 for _ in range(n)], vseed=rng.randrange(1 << 30))
+    if linear and r < (0.6 if spec.get('structural') else 0.2):
+        return dict(op='constraints', droptol=rng.choice([1e-12, 1e-6, 1e-2, 1.0] + ([0.3, 1.0, 1.0] if spec.get('structural') else [])), cons=rng.choice(['none', 'bool', 'float']), cmask=[rng.random() < 0.3 for _ in range(n)], vseed=rng.randrange(1 << 30))
     if linear:
         method = rng.choice([None, None, 'direct', 'direct_noatol', 'arnoldi', 'arnoldi', 'newton', 'linesearch', 'minimize', 'legacy_linear', 'legacy_optimize', 'legacy_theta'])
     else:
@@ -258,8 +272,8 @@ def gen_system_op(rng, spec):
 def gen_case(rng, index, tier):
     r = rng.random()
     if r < 0.55:
-        spec = gen_matrix_spec(rng)
-        ops = [gen_solve_op(rng, spec['n']) for _ in range(rng.choice([1, 2, 3, 4, 6]))]
+        spec = gen_matrix_spec(rng, rng.choice([16, 24]) if tier == 'thorough' and rng.random() < 0.15 else None)
+        ops = [gen_solve_op(rng, spec['n']) for _ in range(rng.choice([1, 2, 3, 4, 6] + ([10] if tier == 'thorough' else [])))]
         case = dict(kind='matrix', spec=spec, ops=ops, faults={})
     else:
         spec = gen_system_spec(rng)
@@ -305,6 +319,10 @@ def run_matrix(case, B):
                 rhs = numpy.zeros(shape, dtype=A.dtype)
             elif op['rhs'] == 'tiny':
                 rhs = _vec(op['vseed'], shape, cplx, 1e-14).astype(A.dtype)
+            elif op['rhs'] == 'zerocol':
+                rhs = _vec(op['vseed'], shape, cplx).astype(A.dtype)
+                if rhs.ndim == 2:
+                    rhs[:, op['vseed'] % rhs.shape[1]] = 0   # one of several right hand sides is zero
             else:
                 rhs = _vec(op['vseed'], shape, cplx).astype(A.dtype)
             kw = {}
@@ -681,15 +699,15 @@ def _do_theta(spec, resfun, op, constrain, cmask, cvals, guess, want):
     uu = function.Argument('u', (n,))
     gen = solver.thetamethod('u', _legacy_residual(spec), uu, dt, theta, lhs0=u0.copy(), constrain=constrain.get('u'), newtontol=tol)
     prev = None
-    fired0 = dict(PLAN.fired)
+    retries0 = _STATE.get('retries', 0)
     for istep, u in enumerate(gen):
         u = numpy.asarray(u, dtype=float)
         if istep == 0:
             prev = u
             continue
-        if PLAN.fired != fired0:
-            # a failed solve makes step() bisect the time step: the result then solves two half steps, not the one-step equation
-            fired0 = dict(PLAN.fired)
+        if _STATE.get('retries', 0) != retries0:
+            # a failed solve made step() bisect the time step: the result then solves two half steps, not the one-step equation
+            retries0 = _STATE.get('retries', 0)
             tol_here = 0.
         else:
             tol_here = tol
@@ -801,6 +819,23 @@ def worker_init():
     _pywarnings.simplefilter('ignore')
 
 
+class _RetryLog:
+    '''treelog sink that only counts the time-step bisections announced by System.step'''
+
+    def pushcontext(self, title):
+        pass
+
+    def popcontext(self):
+        pass
+
+    def recontext(self, title):
+        pass
+
+    def write(self, msg, level):
+        if 'retrying with timestep' in str(msg):
+            _STATE['retries'] = _STATE.get('retries', 0) + 1
+
+
 def run_case(case):
     import treelog
     global PLAN
@@ -809,7 +844,7 @@ def run_case(case):
     PLAN = Plan(case.get('faults'))
     _STATE.clear()
     B = _make_backend()
-    with treelog.set(treelog.NullLog()):
+    with treelog.set(_RetryLog()):
         if case['kind'] == 'matrix':
             vclass, detail, log = run_matrix(case, B)
         else:
